@@ -94,7 +94,11 @@ def run(pid, tier, seed):
                       [(2019, 12, 25, 1, 0, 0), (2020, 12, 3, 1, 0, 0), (2021, 11, 30, 1, 0, 0), (2021, 12, 1, 1, 0, 0)],
                       [(2020, 6, 15, 12, 0, 0), (2021, 6, 1, 12, 0, 0)],
                       [(2021, 3, 31, 23, 0, 0), (2022, 3, 1, 0, 0, 0), (2022, 3, 2, 0, 0, 0)],
-                      [(2022, 5, 9, 5, 5, 5), (2023, 5, 6, 5, 5, 4), (2024, 5, 3, 5, 5, 3)]]
+                      [(2022, 5, 9, 5, 5, 5), (2023, 5, 6, 5, 5, 4), (2024, 5, 3, 5, 5, 3)],
+                      # (several messages within one second, before and after a New Year: a window may open exactly on them)
+                      [(2023, 12, 30, 10, 0, 0), (2023, 12, 31, 23, 59, 59), (2023, 12, 31, 23, 59, 59), (2023, 12, 31, 23, 59, 59),
+                       (2024, 1, 1, 0, 0, 5), (2024, 1, 1, 0, 0, 5), (2024, 1, 2, 8, 0, 0)],
+                      [(2024, 3, 1, 1, 1, 1), (2024, 3, 2, 2, 2, 2), (2024, 3, 2, 2, 2, 2), (2024, 3, 3, 3, 3, 3), (2024, 3, 3, 3, 3, 3), (2024, 3, 3, 3, 3, 3)]]
             if fi < len(forced):
                 locs = [calendar.timegm(x + (0, 0, 0)) for x in forced[fi]]
                 wraps = 1
@@ -148,7 +152,8 @@ def run(pid, tier, seed):
             # a window in absolute dates selects by the inferred dates
             if len(locs) >= 3 and all(locs[j] <= locs[j + 1] for j in range(len(locs) - 1)):
                 # (windows only on chronological series: C03's scope)
-                for k in [rng.randrange(len(locs))] + ([len(locs) - 1, len(locs) - 2] if fi % 4 == 3 else []):
+                tie_starts = [j for j in range(len(locs) - 1) if locs[j] == locs[j + 1] and (j == 0 or locs[j - 1] != locs[j])]
+                for k in [rng.randrange(len(locs))] + ([len(locs) - 1, len(locs) - 2] if fi % 4 == 3 else []) + tie_starts[:3]:
                     a = true_utc[k]
                     sel = [e for u, e in zip(true_utc, exp_lines) if u >= a]
                     cases.append((Case(files, base + ["-a", gen.fmt_ts(a, 0, 0, 0), arg], b"".join(sel), mtimes=mtimes, tz_args=False,
